@@ -22,6 +22,16 @@
 //   {"e":"Copy","t":t,"seq":k,"how":...,"v":[hi,lo],"src":[hi,lo]}
 // (size_t values as two limbs, base 2^30).  The observation returned to the
 // orchestrator holds only the threads' own counts.  The driver never decides.
+//
+// Action Relay{threads, segs:[[t,n],...], out}: a SYNCHRONISED cross-thread relay
+// (spec/utility/StampsRelayTrace.tla).  `threads` long-lived threads exist from the
+// start; segment i = "thread t creates / renews n stamps", and segment i + 1 starts
+// only after segment i has finished: the hand-over is an atomic turn counter
+// (store-release by the thread that finished, load-acquire by the waiting ones), so
+// every draw happens-before the next one in the log although the threads differ.
+// The draws are logged in that order by the thread holding the turn:
+//   {"e":"Draw","k":k,"seg":i,"t":t,"op":"create"|"renew","v":[hi,lo]}
+// A thread that appears in no segment (or only with n = 0) never draws a stamp.
 #include <atomic>
 #include <cstdio>
 #include <stdexcept>
@@ -162,6 +172,47 @@ void worker(int t, long ops, long sync, uint64_t seed, const std::vector<TimeSta
   for (int i = 0; i < SLOTS; ++i) delete slot[i];
 }
 
+struct RelayEv
+{
+  int seg;
+  int t;
+  Kind kind;
+  size_t v;
+};
+
+// thread t of a relay: waits for its segments, draws, hands over
+void relayWorker(int t, const std::vector<std::pair<int, long>> *segs, std::atomic<long> *turn, std::vector<RelayEv> *log)
+{
+  TimeStamp *mine = nullptr;   // created by this thread's first draw, then renewed / replaced
+  const long S = (long)segs->size();
+  for (;;) {
+    long i = turn->load(std::memory_order_acquire);
+    if (i >= S) break;
+    if (i < 0 || (*segs)[(size_t)i].first != t) {
+      std::this_thread::yield();
+      continue;
+    }
+    const long n = (*segs)[(size_t)i].second;
+    for (long d = 0; d < n; ++d) {
+      if (!mine) {
+        mine = new TimeStamp();
+        const TimeStamp &r = *mine;
+        log->push_back(RelayEv{(int)i + 1, t, CREATE, size_t(r)});
+      } else if ((d + i) % 5 == 4) {
+        TimeStamp tmp;           // a stamp with automatic storage
+        const TimeStamp &r = tmp;
+        log->push_back(RelayEv{(int)i + 1, t, CREATE, size_t(r)});
+      } else {
+        mine->renew();
+        const TimeStamp &r = *mine;
+        log->push_back(RelayEv{(int)i + 1, t, RENEW, size_t(r)});
+      }
+    }
+    turn->store(i + 1, std::memory_order_release);   // hand-over
+  }
+  delete mine;
+}
+
 void limbs(FILE *f, size_t v)
 {
   if ((v >> 30) >= (size_t(1) << 31)) throw std::runtime_error("stamp value beyond 2^61 cannot be logged");
@@ -174,9 +225,45 @@ struct World
 {
   explicit World(const Json &) {}
 
+  Json relay(const Json &arg)
+  {
+    Json o = Json::object();
+    int T = (int)arg["threads"].num();
+    std::string out = arg["out"].str();
+    std::vector<std::pair<int, long>> segs;
+    size_t total = 0;
+    for (size_t i = 0; i < arg["segs"].size(); ++i) {
+      int t = (int)arg["segs"][i][(size_t)0].num();
+      long n = (long)arg["segs"][i][(size_t)1].num();
+      if (t < 1 || t > T || n < 0) throw std::runtime_error("malformed relay plan");
+      segs.push_back(std::make_pair(t, n));
+      total += (size_t)n;
+    }
+    std::vector<RelayEv> log;
+    log.reserve(total + 8);   // never reallocated while the threads run (and only the turn holder appends)
+    std::atomic<long> turn(-1);
+    std::vector<std::thread> th;
+    for (int t = 1; t <= T; ++t) th.emplace_back(relayWorker, t, &segs, &turn, &log);
+    turn.store(0, std::memory_order_release);
+    for (auto &x : th) x.join();
+    FILE *f = fopen(out.c_str(), "w");
+    if (!f) throw std::runtime_error("cannot write " + out);
+    long long k = 0;
+    for (const RelayEv &e : log) {
+      fprintf(f, "{\"e\":\"Draw\",\"k\":%lld,\"seg\":%d,\"t\":%d,\"op\":\"%s\",\"v\":", ++k, e.seg, e.t, kindName[e.kind]);
+      limbs(f, e.v);
+      fprintf(f, "}\n");
+    }
+    if (fclose(f) != 0) throw std::runtime_error("cannot write " + out);
+    o.set("threads", T);
+    o.set("draws", k);
+    return o;
+  }
+
   Json step(const Json &act)
   {
     Json o = Json::object();
+    if (act["a"].str() == "Relay") return relay(act["arg"]);
     if (act["a"].str() != "Burst") {
       o.set("error", "unknown-action");
       return o;
